@@ -2,10 +2,10 @@
 """Runs the quick check(s) of each seeded change's property against /repo with the change applied
 (git apply), then reverts (git checkout -- . ; git clean). Results are written into each
 meta.json and printed as a table. usage: seedrun.py [dir-name ...] [--checks C01,C02]"""
-import json, os, subprocess, sys, time
+import fcntl, json, os, subprocess, sys, time
 SEED = '/verif/seeded'
 def sh(cmd, cwd=None, timeout=2400):
-    return subprocess.run(cmd, shell=True, cwd=cwd, capture_output=True, text=True, timeout=timeout)
+    return subprocess.run(cmd, shell=True, cwd=cwd, capture_output=True, text=True, errors="replace", timeout=timeout)
 def main():
     args = [a for a in sys.argv[1:] if not a.startswith('--')]
     extra = [a.split('=', 1)[1].split(',') for a in sys.argv[1:] if a.startswith('--checks=')]
@@ -42,4 +42,6 @@ def main():
             sh('git -C /repo checkout -- . && git -C /repo clean -fdq')
         json.dump(meta, open(os.path.join(d, 'meta.json'), 'w'), indent=1)
 if __name__ == '__main__':
+    _lock = open('/tmp/repo-mutation.lock', 'w')
+    fcntl.flock(_lock, fcntl.LOCK_EX)  # one /repo-mutating job at a time
     main()
